@@ -1,13 +1,25 @@
 #!/bin/sh
-# Build the framework from files on disk only (offline): extractor, generated facts, Lean library + proofs + model
-# drivers, Go harness binaries. Run once after a fresh restore; every check rebuilds incrementally what it needs.
-set -e
+# Build the framework from files on disk only (offline): extractor, generated facts, and — for every property claimed in
+# MANIFEST.json — its Lean proof modules + model driver and its Go harness binary. Run once after a fresh restore; every
+# check rebuilds incrementally what it needs. A property whose build fails here does not stop the others: its own check
+# reports the failure.
 cd "$(dirname "$0")"
 export GOFLAGS=-mod=mod GOPROXY=off GOSUMDB=off GOTOOLCHAIN=local GOCACHE="$PWD/.cache/gocache"
 mkdir -p .cache/bin .cache/run evidence replays harness/bin
-(cd tools/extract && go build -o ../../.cache/bin/extract .)
-./.cache/bin/extract /repo lean/Logrange/Generated
-(cd lean && lake build)
+(cd tools/extract && go build -o ../../.cache/bin/extract .) || exit 1
+./.cache/bin/extract /repo lean/Logrange/Generated || exit 1
 cp /repo/go.sum harness/go.sum
-(cd harness && for d in cmd/*/; do n=$(basename "$d"); go build -tags verif -o "bin/$n" "./cmd/$n"; done)
-echo setup done
+ids=$(python3 -c "import json;print(' '.join(c['property_id'] for c in json.load(open('MANIFEST.json'))['checks']))")
+rc=0
+targets="Logrange.AuditCmd"
+for id in $ids; do
+  targets="$targets $(python3 -c "import json;print(' '.join(json.load(open('props/$id.json'))['lean_targets']))")"
+done
+(cd lean && lake build $targets) || { echo "setup: lake build of all targets failed; building per property"; 
+  for id in $ids; do t=$(python3 -c "import json;print(' '.join(json.load(open('props/$id.json'))['lean_targets']))"); (cd lean && lake build Logrange.AuditCmd $t) || { echo "setup: Lean targets of $id do not build"; rc=1; }; done; }
+for id in $ids; do
+  h=$(python3 -c "import json;print(json.load(open('props/$id.json'))['harness'])")
+  (cd harness && go build -tags verif -o "bin/$h" "./cmd/$h") || { echo "setup: harness of $id does not build"; rc=1; }
+done
+echo "setup done rc=$rc"
+exit $rc
